@@ -121,3 +121,22 @@ Theorem C14_cdevice2_block_structure : forall pl ph (cbs : list (cbound R)) (s :
                  (fun c => let z := slice (cb_s c) (cb_e c) s in mconst (length z) (length z) (hl_hess (vsum z) pl ph (cb_lo c) (cb_hi c))) cbs)
               (length s).
 Proof. exact cdev2_hess_multi. Qed.
+
+(* ==== storage with the deep-discharge term (Proofs/StorageProofs.v) ========================================================
+   the full statement announced above C14_sdevice_no_deep_term_partial: every c3, away from the kinks
+   (off_damage_level: no slot's state of charge equals damage_depth*capacity; smooth_at: efficiency 1 or no zero flow) *)
+From DK.Proofs Require Import StorageProofs.
+
+Theorem C14_sdevice : forall n b cb q (s p : list R), length s = n -> length p = n ->
+  smooth_at (sp_eff q) s -> off_damage_level q s ->
+  hess_at (fun s' => leaf_deriv (Build_leafdev n b cb (KS q)) s' p) (leaf_hess (Build_leafdev n b cb (KS q)) s) s.
+Proof. exact hess_sdevice_full. Qed.
+
+(* the deep-discharge block alone: d/dr_k of the deep part of the j-th marginal cost *)
+Theorem C14_sdevice_deep_term : forall q (r : list R) j k, (j < length r)%nat -> (k < length r)%nat ->
+  (sp_eff q = 1 \/ nth k r 0 <> 0) -> off_damage_level q r ->
+  is_derive (fun t => deepv q (upd r k t) j) (nth k r 0) (deeph q r j k).
+Proof. exact deep_coord. Qed.
+
+Example C14_sdevice_example : smooth_at (sp_eff ex_q) [1; -2; 1 / 2] /\ off_damage_level ex_q [1; -2; 1 / 2].
+Proof. exact example_storage_hess. Qed.
